@@ -39,7 +39,7 @@ func removeSpace(str string) string {
 
 func Normalize(zone string) (string, error) {
 	trimmed := removeSpace(zone)
-	if !certmagic.SubjectQualifiesForPublicCert(trimmed) {
+	if !certmagic.SubjectQualifiesForPublicCert(trimmed) || certmagic.SubjectIsIP(trimmed) {
 		return "", fmt.Errorf("acme: invalid zone for acme certificate")
 	}
 	if strings.Contains(trimmed, "*") {
@@ -52,6 +52,16 @@ func Normalize(zone string) (string, error) {
 	invalid := nonDnsRegex.FindStringIndex(uni)
 	if len(invalid) > 0 {
 		return "", fmt.Errorf("acme: zone contains invalid dns characters")
+	}
+	if uni != trimmed {
+		// ToASCII decodes punycode labels without non-ASCII data back to plain
+		// labels (e.g. "xn--localhost-" becomes "localhost"), so the converted
+		// name must qualify on its own and must be a fixed point
+		again, err := idna.ToASCII(uni)
+		if err != nil || again != uni ||
+			!certmagic.SubjectQualifiesForPublicCert(uni) || certmagic.SubjectIsIP(uni) {
+			return "", fmt.Errorf("acme: zone is not in canonical form")
+		}
 	}
 	return uni, nil
 }
